@@ -266,7 +266,7 @@ func runC16Conc(c c16Case) evid.Outcome {
 		ack := make(chan struct{})
 		select {
 		case w.hub.handleMessage <- &MessageContext{Message: &Message{Event: "__barrier", Data: ack}}:
-		case <-time.After(c16Wait):
+		case <-time.After(c16W()):
 			return false
 		}
 		select {
@@ -274,7 +274,7 @@ func runC16Conc(c c16Case) evid.Outcome {
 		case p := <-w.panicCh:
 			w.failf("c16.panic", "%v", p)
 			return false
-		case <-time.After(c16Wait):
+		case <-time.After(c16W()):
 			return false
 		}
 		h := w.hub
@@ -283,7 +283,7 @@ func runC16Conc(c c16Case) evid.Outcome {
 	if healthy {
 		settled := false
 		stable := 0
-		for deadline := time.Now().Add(c16Wait); time.Now().Before(deadline); {
+		for deadline := time.Now().Add(c16W()); time.Now().Before(deadline); {
 			if idle() {
 				stable++
 				if stable >= 3 {
@@ -299,7 +299,7 @@ func runC16Conc(c c16Case) evid.Outcome {
 			}
 		}
 		if !settled && w.fail.Load() == nil {
-			w.failf("c16.deadlock", "hub loop did not become idle within %v after the history", c16Wait)
+			w.failf("c16.deadlock", "hub loop did not become idle within %v after the history", c16W())
 			healthy = false
 		}
 	}
@@ -478,9 +478,9 @@ func runC16Storm(c c16Storm) evid.Outcome {
 				}
 			}(conns[i], sc)
 		}
-		ok, p := evid.WithTimeout(c16Wait, func() { close(start); wg.Wait() })
+		ok, p := evid.WithTimeout(10*time.Second, func() { close(start); wg.Wait() })
 		if !ok {
-			return evid.Failf("c16.deadlock", "round %d: simultaneous joins did not return within %v", round, c16Wait)
+			return evid.Failf("c16.deadlock", "round %d: simultaneous joins did not return within %v", round, c16W())
 		}
 		if p != nil {
 			return evid.Failf("c16.panic", "round %d: %v", round, p)
